@@ -7,6 +7,11 @@ structure St where
   spec : Spec := {}
   ram  : Ram := {}
   disk : Disk := {}
+  /-- readers that were opened and not read yet: (id, what the RAM / disk reader will return).
+      A reader returns what the part / file held when it was opened (a snapshot in the model; in the code:
+      `bytes.NewReader` over the buffer's bytes, `ramFileReader` over finalized parts, an open file descriptor). -/
+  hRam  : List (Nat × Out) := []
+  hDisk : List (Nat × Out) := []
 
 def fmtOut : Out → String
   | .unit => "u"
@@ -31,6 +36,27 @@ def step (s : St) (line : String) : St × List String :=
   match words line with
   | [] => (s, [])
   | "case" :: rest => ({}, [String.intercalate " " ("case" :: rest)])
+  | "open" :: id :: rest =>
+    match id.toNat?, (match rest with
+        | ["f"] => some (Op.readFile [])
+        | ["p", k] => (k.toNat?).map Op.readPart
+        | _ => none) with
+    | some i, some op =>
+      let ro := (s.ram.step op).2
+      let dop := (s.disk.step op).2
+      let tag (o : Out) : String := match o with | .err => "e" | _ => "h"
+      ({ s with hRam := (i, ro) :: s.hRam, hDisk := (i, dop) :: s.hDisk }, [s!"ram:{tag ro} disk:{tag dop}"])
+    | _, _ => (s, ["bad-op"])
+  | ["rdh", id, _bufs] =>
+    match id.toNat? with
+    | some i =>
+      let get (l : List (Nat × Out)) : String :=
+        match l.find? (·.1 = i) with
+        | some (_, .err) => "e"
+        | some (_, o) => fmtOut o
+        | none => "e"
+      ({ s with hRam := s.hRam.filter (·.1 ≠ i), hDisk := s.hDisk.filter (·.1 ≠ i) }, [s!"ram:{get s.hRam} disk:{get s.hDisk}"])
+    | none => (s, ["bad-op"])
   | ["exists"] =>
     -- is the disk file still there? (`Remove` = unlink; the model's `removed` flag is what it means)
     (s, [s!"ram:- disk:{if s.disk.removed then "x0" else "x1"}"])
@@ -41,6 +67,6 @@ def step (s : St) (line : String) : St × List String :=
       let (sp, _) := s.spec.step op
       let (r, ro) := s.ram.step op
       let (d, dop) := s.disk.step op
-      ({ spec := sp, ram := r, disk := d }, [s!"ram:{fmtOut ro} disk:{fmtOut dop}"])
+      ({ s with spec := sp, ram := r, disk := d }, [s!"ram:{fmtOut ro} disk:{fmtOut dop}"])
 
 def main : IO Unit := runDriver step ({} : St)
